@@ -123,7 +123,7 @@ CLAIMED = {
             "under the sampler map): 4-uniform Laplace identity, (N1+N2)/sqrt2, sum of four Gamma(d/4), rejection = conditional "
             "law, CKS acceptance; additivity/input-independence/linearity; post-processing + scripted-stream correspondence on "
             "both RNG back-ends; statistical validation (DKW 1e-14) as supporting evidence",
-            "Machine-checked (48 theorems): the Holohan-Braghin identity — log(1-U1)cos(pi U2) + log(1-U3)cos(pi U4) pushed "
+            "Machine-checked (72 theorems): the Holohan-Braghin identity — log(1-U1)cos(pi U2) + log(1-U3)cos(pi U4) pushed "
             "forward from the uniform measure on [0,1)^4 IS the standard Laplace law (characteristic functions: each term "
             "has 1/sqrt(1+t^2), uniqueness from charFun), hence Laplace.randomise on four uniforms has law "
             "Laplace(x, sens/(eps-log(1-delta))), the truncated/folded mechanisms are that law pushed through truncate/fold, "
@@ -135,10 +135,7 @@ CLAIMED = {
             "passes: probability e^{-y^2/2 sigma^2}/sum); -log(1-U) ~ Exp(1); threshold/uniform laws; CKS acceptance identity "
             "and bernoulli_neg_exp stop law; staircase segment/mixture density; randomise x s - x is the same function of the "
             "stream for all x and linear in the calibrated scale; truncation/folding/snapping are post-processing by maps of "
-            "the bounds only. REMAINING (kept as `def ... : Prop`): that the CKS loop over an i.i.d. UNIFORM stream yields "
-            "i.i.d. passes (renewal argument; fuelled inner loops), the batch layout of the rejection loops, sphere "
-            "uniformity, Snapping's released law; Bingham's acceptance ratio is inverted (proved: bingham_accept_cex; open "
-            "finding). Tied to the code by running every randomise on scripted streams against the driver on BOTH back-ends "
+            "the bounds only. Over the i.i.d. UNIFORM stream measure (Measure.infinitePi unif01; machinery shared with C01): the discrete-Gaussian CKS loop - geometric count law, one-pass law, renewal identity, the unbounded loop returns y with probability EXACTLY e^{-y^2/2 sigma^2}/sum, the fuelled model refines it and conversely for all large fuels (cks_loop_law_full: mu ret <= dG <= mu ret + mu abort; cks_growing_fuel_law); the batch layout of the rejection loops (sample i of a batch of s reads uniforms i, s+i, 2s+i, 3s+i) is injective and turns the uniform stream into an i.i.d. Laplace candidate stream, so the bounded-domain / bounded-noise samplers in the code's own consumption order have the conditioned Laplace law and satisfy C02's (eps,delta) inequality (boundedDomain_sampler_dp, boundedNoise_sampler_dp); Snapping with a fair bit and a continuous uniform: sign*log U is Laplace, round-half-up cells, released grid pmf, pure eps_eff-DP in exact arithmetic (not Mironov's floating-point theorem). REMAINING: no explicit bound on P[abort] for the model's fixed inner fuels; that the dyadic uniform of the snapping sampler is the round-down of a continuous one; sphere uniformity is proved under C17, not restated here; Bingham's acceptance ratio is inverted (proved: bingham_accept_cex; open finding). Tied to the code by running every randomise on scripted streams against the driver on BOTH back-ends "
             "(SystemRandom script and numpy RandomState script; outputs and numbers of draws consumed), live-object sequences, "
             "repeated evaluation of released functions; statistical law tests at the DKW 1e-14 level are supporting evidence.",
             "Trusted: Lean kernel + Mathlib; library primitives (random() uniform, normalvariate/standard_normal normal, "
